@@ -34,6 +34,9 @@ pub enum ErrHandler {
     Failing,
     /// `probe err_h; exit M`: the shell ends with M at the first failing command
     Exits(u8),
+    /// `probe errs_b %traps; . ./errh.sh; probe errs_e`: a command fails inside a file the handler
+    /// sources (the handler must not be entered again for it)
+    SourcesFailing,
 }
 
 #[derive(Clone, Debug, Serialize, Deserialize, PartialEq)]
@@ -74,6 +77,8 @@ pub enum Via {
     Bang,
     /// `simexit S || simexit 0` (first operand exempt; the list succeeds)
     OrRescued(u8),
+    /// `compgen -F nosuchfn_c16 x 2>/dev/null || simexit 0` (a completion function that cannot run)
+    CompgenMissing,
 }
 
 #[derive(Clone, Debug, Serialize, Deserialize, PartialEq)]
@@ -174,6 +179,7 @@ impl Renderer {
                 Via::AndOrLast(s) => format!("true && simexit {s}"),
                 Via::Bang => "! true".to_string(),
                 Via::OrRescued(s) => format!("simexit {s} || simexit 0"),
+                Via::CompgenMissing => "compgen -F nosuchfn_c16 x 2>/dev/null || simexit 0".to_string(),
             },
             Node::Subshell(b) => format!("(\n{}\n)", self.block(b)),
             Node::CmdSubst(b) => {
@@ -206,6 +212,12 @@ impl Renderer {
                 ErrHandler::Clobbers => "trap \"probe err_h; true\" ERR".to_string(),
                 ErrHandler::Failing => "trap \"probe err_h; simexit 4\" ERR".to_string(),
                 ErrHandler::Exits(m) => format!("trap \"probe err_h; exit {m}\" ERR"),
+                ErrHandler::SourcesFailing => {
+                    if !self.files.iter().any(|(n, _)| n == "errh.sh") {
+                        self.files.push(("errh.sh".to_string(), "simexit 3\ntrue\n".to_string()));
+                    }
+                    "trap \"probe errs_b %traps; . ./errh.sh; probe errs_e\" ERR".to_string()
+                }
             },
             Node::Term(c) => match c {
                 Cause::Exit(Some(n)) => format!("exit {n}"),
@@ -251,7 +263,7 @@ struct MState {
     err_exit: Option<u8>,
     /// an ERR handler whose last command fails with 4 is installed (under errexit the shell
     /// then ends inside the handler with that status, as in bash)
-    err_failing: bool,
+    err_failing: Option<u8>,
     in_func: bool,
 }
 
@@ -283,8 +295,8 @@ impl Model {
             if let Some(m) = st.err_exit {
                 return Flow::Terminated(Known::Exactly(m));
             }
-            if st.err_failing && st.errexit {
-                return Flow::Terminated(Known::Exactly(4));
+            if let (Some(hs), true) = (st.err_failing, st.errexit) {
+                return Flow::Terminated(Known::Exactly(hs));
             }
         }
         if s != 0 && st.errexit {
@@ -381,7 +393,7 @@ impl Model {
                     st.status = 1;
                     Flow::Continue
                 }
-                Via::OrRescued(_) => {
+                Via::OrRescued(_) | Via::CompgenMissing => {
                     st.status = 0;
                     Flow::Continue
                 }
@@ -394,7 +406,7 @@ impl Model {
                 let mut sub = st.clone();
                 sub.exit_trap = None;
                 sub.err_exit = None;
-                sub.err_failing = false;
+                sub.err_failing = None;
                 sub.depth += 1;
                 // probes inside run at depth > 0: not part of the main sequence
                 let f = self.block(b, &mut sub, false, capture);
@@ -413,7 +425,7 @@ impl Model {
                 let mut sub = st.clone();
                 sub.exit_trap = None;
                 sub.err_exit = None;
-                sub.err_failing = false;
+                sub.err_failing = None;
                 sub.errexit = false;
                 sub.depth += 1;
                 let f = self.block(b, &mut sub, false, true);
@@ -431,7 +443,7 @@ impl Model {
                 let mut sub = st.clone();
                 sub.exit_trap = None;
                 sub.err_exit = None;
-                sub.err_failing = false;
+                sub.err_failing = None;
                 sub.depth += 1;
                 let _ = self.block(b, &mut sub, false, capture);
                 st.status = 0;
@@ -459,7 +471,11 @@ impl Model {
                 st.status = 0;
                 if st.depth == 0 {
                     st.err_exit = if let ErrHandler::Exits(m) = h { Some(*m) } else { None };
-                    st.err_failing = *h == ErrHandler::Failing;
+                    st.err_failing = match h {
+                        ErrHandler::Failing => Some(4),
+                        ErrHandler::SourcesFailing => Some(3),
+                        _ => None,
+                    };
                 }
                 Flow::Continue
             }
@@ -510,7 +526,7 @@ pub struct Expected {
 
 pub fn expected(case: &Case) -> Expected {
     let mut m = Model { next: 0, events: vec![], stdout: String::new(), inexact_status: false };
-    let mut st = MState { status: 0, exit_trap: None, errexit: false, depth: 0, err_exit: None, err_failing: false, in_func: false };
+    let mut st = MState { status: 0, exit_trap: None, errexit: false, depth: 0, err_exit: None, err_failing: None, in_func: false };
     let f = m.block(&case.program, &mut st, true, false);
     let term_status = match f {
         Flow::Terminated(Known::Exactly(s)) => Some(s),
@@ -553,7 +569,8 @@ fn gen_block2(rng: &mut Rng, depth: u32, main_ctx: bool, in_eval: bool, in_func:
                 if rng.below(3) == 0 {
                     // (Via::Bang is not generated: side finding, brush applies errexit and the ERR
                     // trap to a compound command whose status came from a `!` pipeline)
-                    Node::StatusVia(match *rng.pick(&[0u64, 1, 2, 3, 5]) {
+                    Node::StatusVia(match *rng.pick(&[0u64, 1, 2, 3, 5, 6]) {
+                        6 => Via::CompgenMissing,
                         0 => Via::Assign(*rng.pick(&[0u8, 3, 7])),
                         1 => Via::Arith,
                         2 => Via::Cond,
@@ -578,7 +595,8 @@ fn gen_block2(rng: &mut Rng, depth: u32, main_ctx: bool, in_eval: bool, in_func:
                 if rng.below(3) == 0 {
                     if rng.below(3) == 0 { Node::TrapExitIgnore } else { Node::TrapExitRemove }
                 } else {
-                    Node::TrapErr(match rng.below(5) {
+                    Node::TrapErr(match rng.below(6) {
+                        5 => ErrHandler::SourcesFailing,
                         0..=1 => ErrHandler::Clobbers,
                         2..=3 => ErrHandler::Failing,
                         _ => ErrHandler::Exits(*rng.pick(&[0u8, 8, 9])),
@@ -686,7 +704,7 @@ impl C16 {
         // `exit` inside the EXIT handler) and from handlers that fail on purpose
         fn has_err_failing(ns: &[Node]) -> bool {
             ns.iter().any(|n| match n {
-                Node::TrapErr(ErrHandler::Exits(_) | ErrHandler::Failing) => true,
+                Node::TrapErr(ErrHandler::Exits(_) | ErrHandler::Failing | ErrHandler::SourcesFailing) => true,
                 Node::If(b) | Node::Eval(b) | Node::Brace(b) | Node::CaseArm(b) | Node::WhileRead(b) | Node::Func(b) | Node::Source(b) | Node::For(_, b) | Node::Subshell(b) | Node::CmdSubst(b) | Node::Bg(b) => has_err_failing(b),
                 _ => false,
             })
@@ -753,7 +771,13 @@ fn viol(class: &str, detail: String, shape: Option<&str>) -> Violation {
     Violation { class: class.to_string(), detail, known_shape: shape.map(String::from) }
 }
 
+fn is_err_tag(t: &str) -> bool {
+    t == "err_h" || t == "errs_b" || t == "errs_e"
+}
+
 struct Observed {
+    /// trap-handler frames on the stack at each `errs_b` probe of the main shell
+    errs_b_frames: Vec<usize>,
     main: Vec<(String, u8, u64)>,
     sub_exit_h: usize,
 }
@@ -761,16 +785,20 @@ struct Observed {
 fn observe(r: &RunResult) -> Observed {
     let mut main = vec![];
     let mut sub_exit_h = 0;
+    let mut errs_b_frames = vec![];
     for e in &r.events {
-        if let EventKind::Probe { tag, status, depth, .. } = &e.kind {
+        if let EventKind::Probe { tag, status, depth, extra, .. } = &e.kind {
             if *depth == 0 && e.pid == 0 {
+                if tag == "errs_b" {
+                    errs_b_frames.push(extra.first().and_then(|x| x.parse().ok()).unwrap_or(0));
+                }
                 main.push((tag.clone(), *status, e.seq));
             } else if tag == "exit_h" {
                 sub_exit_h += 1;
             }
         }
     }
-    Observed { main, sub_exit_h }
+    Observed { errs_b_frames, main, sub_exit_h }
 }
 
 /// The oracle that needs no prediction: applied to every run, with or without faults.
@@ -782,6 +810,22 @@ fn observational(case: &Case, r: &RunResult, script: &str, what: &str) -> Option
     let o = observe(r);
     if o.sub_exit_h > 0 {
         return Some(viol("C16/exit-trap/ran-in-subshell", format!("{what}: {} EXIT handler runs inside subshell contexts; script={script:?}", o.sub_exit_h), None));
+    }
+    // a handler never re-enters itself: while the ERR handler that sources a file with a failing
+    // command runs, that failure must not start the ERR handler again (which would show as a
+    // second ERR handler frame on the call stack). An EXIT handler frame may be underneath.
+    let mut in_exit = 0usize;
+    let mut bi = 0usize;
+    for (tag, _, _) in &o.main {
+        if tag == "exit_h" {
+            in_exit = 1;
+        } else if tag == "errs_b" {
+            let n = o.errs_b_frames.get(bi).copied().unwrap_or(0);
+            bi += 1;
+            if n > 1 + in_exit {
+                return Some(viol("C16/handler/re-entered", format!("{what}: the ERR handler was entered again while it was running ({n} trap-handler frames on the stack); main probes {:?}; script={script:?}", o.main.iter().map(|x| x.0.as_str()).collect::<Vec<_>>()), None));
+            }
+        }
     }
     // which handler is registered when the shell terminates: the last trap operation that ran
     let mut registered: Option<String> = None;
@@ -815,11 +859,11 @@ fn observational(case: &Case, r: &RunResult, script: &str, what: &str) -> Option
         let handler_kind = handler_of(case, &registered);
         let out_fault = case.cfg.faults.iter().any(|f| matches!(f, Fault::SinkFrom { sink: 1, .. }));
         let handler_may_fail = matches!(handler_kind, Some(Handler::Failing)) || (matches!(handler_kind, Some(Handler::Output)) && out_fault);
-        let tail_ok = |tag: &str| tag == "err_h" && handler_may_fail;
+        let tail_ok = |tag: &str| is_err_tag(tag) && handler_may_fail;
         if let Some(last) = o.main.iter().rev().find(|(t, _, _)| !tail_ok(t)) {
             if last.2 != ex.2 {
                 // known shape: the ERR trap fires for the EXIT handler's own `exit m` (m != 0)
-                let shape = if last.0 == "err_h" && matches!(handler_kind, Some(Handler::Exits(m)) if m != 0) { Some("err-trap-fires-on-exit-n") } else { None };
+                let shape = if is_err_tag(&last.0) && matches!(handler_kind, Some(Handler::Exits(m)) if m != 0) { Some("err-trap-fires-on-exit-n") } else { None };
                 return Some(viol("C16/exit-trap/not-last", format!("{what}: probe {} ran after the EXIT handler; script={script:?}", last.0), shape));
             }
         }
@@ -937,7 +981,7 @@ pub fn judge(case: &Case) -> Verdict {
     }
     // exact model
     let o = observe(&r);
-    let got: Vec<(String, u8)> = o.main.iter().filter(|(t, _, _)| t != "err_h" && t != "exit_h").map(|(t, s, _)| (t.clone(), *s)).collect();
+    let got: Vec<(String, u8)> = o.main.iter().filter(|(t, _, _)| !is_err_tag(t) && t != "exit_h").map(|(t, s, _)| (t.clone(), *s)).collect();
     let want = &exp.events;
     let tags_equal = got.len() == want.len() && got.iter().zip(want.iter()).all(|(g, w)| g.0 == w.0);
     if !tags_equal {
@@ -986,7 +1030,7 @@ pub fn judge(case: &Case) -> Verdict {
         return v;
     }
     // reach probes
-    let errs = o.main.iter().filter(|(t, _, _)| t == "err_h").count();
+    let errs = o.main.iter().filter(|(t, _, _)| is_err_tag(t)).count();
     if errs > 0 {
         v.stats.probe("err_handler_fired");
     }
